@@ -20,6 +20,18 @@ from .term import BOT, T
 
 CALLS: list[tuple] = []
 
+#: name of the actor that raises on its next apply (failure injection by the harness); None = nobody
+FAIL: list = [None]
+
+
+class Injected(RuntimeError):
+    """Failure injected by the harness into an actor."""
+
+
+def maybe_fail(name: str) -> None:
+    if FAIL[0] is not None and FAIL[0] == name:
+        raise Injected(f'injected failure in {name}')
+
 
 def log_call(entry: tuple) -> None:
     CALLS.append(entry)
@@ -88,6 +100,7 @@ class Fn(flow.Actor):
         self.hp = dict(hp)
 
     def apply(self, *features):
+        maybe_fail(self.name)
         log_call(('apply', self.name, hp_term(self.hp), None, tuple(features)))
         return outputs(T('F', self.name, hp_term(self.hp), *features), self.nout)
 
@@ -115,6 +128,7 @@ class St(flow.Actor):
         self.state = T('S', self.name, hp_term(self.hp), self.state, features, labels)
 
     def apply(self, *features):
+        maybe_fail(self.name)
         log_call(('apply', self.name, hp_term(self.hp), self.state, tuple(features)))
         return outputs(T('A', self.name, hp_term(self.hp), self.state, *features), self.nout)
 
